@@ -154,6 +154,72 @@ fn report_project_condition(rep: &mut Report, model: &Model, reqs: &[String], wh
     }
 }
 
+/// verify is read-only also when it fails: (A) a directive that fails at verify time (an included plain file was removed
+/// after the build) must leave the existing output alone; (B) a dependency outside the inputs whose output is stale or
+/// missing must not be rewritten or created by the verify of its includer
+fn verify_read_only_scenarios(rep: &mut Report, runner: &mut Runner, property: &str) {
+    let cat = ("cat numbers.csv".to_string(), vec![Act { kind: "cat", arg: "numbers.csv".into() }]);
+    // (A)
+    {
+        let p = Project {
+            files: vec![("page.txt.txtpp".into(), b"head\nTXTPP#include numbers.csv\n# TXTPP#run cat numbers.csv\ntail\n".to_vec()), ("numbers.csv".into(), b"1,2\n".to_vec())],
+            dirs: vec![],
+            cmds: vec![cat.clone()],
+            sources: vec!["page.txt.txtpp".into()],
+            sig: vec![],
+            expect_error: false,
+        };
+        materialize(&p, &runner.dir);
+        let mut cfg = RunCfg::build_all();
+        cfg.threads = 1;
+        let b = runner.run_here(&cfg, &p.cmds, vec!["verify-read-only|A|build".into()], "verify read-only A: build");
+        if runner.cases[b].imp.verdict == "ok" {
+            let _ = std::fs::remove_file(runner.dir.join("numbers.csv"));
+            let mut vcfg = cfg.clone();
+            vcfg.mode = "verify";
+            let v = runner.run_here(&vcfg, &p.cmds, vec!["verify-read-only|A|verify".into()], "verify read-only A: verify after the included file was removed");
+            let c = &runner.cases[v];
+            let same = c.imp.after.files.get("page.txt") == c.before.files.get("page.txt") && c.before.files.contains_key("page.txt");
+            if c.imp.verdict == "ok" || !same || c.imp.touched.contains("page.txt") {
+                let what = format!("{property}: verify of a source whose `include numbers.csv` fails (the file was removed after the build): verdict `{}`, the existing output page.txt {}", c.imp.verdict, if same && !c.imp.touched.contains("page.txt") { "was left alone" } else { "WAS CHANGED OR REMOVED" });
+                rep.violation("oracle", &what, &replay_body(&c.before, &c.cfg, &c.cmds, &format!("# {what}\n")));
+            }
+        }
+    }
+    // (B)
+    for missing in [false, true] {
+        let p = Project {
+            files: vec![("page.txt.txtpp".into(), b"top\nTXTPP#include lib/footer.txt\nbottom\n".to_vec()), ("lib/footer.txt.txtpp".into(), b"footer v1\n".to_vec())],
+            dirs: vec!["lib".into()],
+            cmds: vec![],
+            sources: vec!["page.txt.txtpp".into(), "lib/footer.txt.txtpp".into()],
+            sig: vec![],
+            expect_error: false,
+        };
+        materialize(&p, &runner.dir);
+        let mut cfg = RunCfg::build_all();
+        cfg.threads = 2;
+        let b = runner.run_here(&cfg, &p.cmds, vec!["verify-read-only|B|build".into()], "verify read-only B: build");
+        if runner.cases[b].imp.verdict == "ok" {
+            let _ = std::fs::write(runner.dir.join("lib/footer.txt.txtpp"), b"footer v2\n");
+            if missing {
+                let _ = std::fs::remove_file(runner.dir.join("lib/footer.txt"));
+            }
+            let mut vcfg = cfg.clone();
+            vcfg.mode = "verify";
+            vcfg.inputs = vec!["page.txt.txtpp".to_string()];
+            vcfg.recursive = false;
+            let v = runner.run_here(&vcfg, &p.cmds, vec![format!("verify-read-only|B|verify|missing={missing}")], "verify read-only B: verify of the includer after the dependency's source was edited");
+            let c = &runner.cases[v];
+            let unchanged = c.imp.after.files.get("lib/footer.txt") == c.before.files.get("lib/footer.txt") && !c.imp.touched.contains("lib/footer.txt");
+            if c.imp.verdict == "ok" || !unchanged {
+                let what = format!("{property}: verify of `page.txt.txtpp` alone after its dependency's source changed (output {}): verdict `{}`, lib/footer.txt {}", if missing { "removed" } else { "stale" }, c.imp.verdict, if unchanged { "was left alone" } else { "WAS WRITTEN by verify" });
+                rep.violation("oracle", &what, &replay_body(&c.before, &c.cfg, &c.cmds, &format!("# {what}\n")));
+            }
+        }
+    }
+}
+
 fn fresh_project(rng: &mut Rng, runner: &mut Runner, want_ok: bool) -> Option<(Project, Tree, Tree, RunCfg)> {
     for _ in 0..6 {
         let p0 = gen_project(rng, &hist_opts());
@@ -397,6 +463,9 @@ pub fn run_c06(args: &Args) -> Report {
     }
     report_side_condition(&mut rep, &model, &safe_reqs);
     report_project_condition(&mut rep, &model, &proj_reqs, "verify");
+    if args.shard == 0 {
+        verify_read_only_scenarios(&mut rep, &mut runner, "C06");
+    }
     if args.shard == 0 {
         run_corners(&mut rep, &mut runner, "C06");
     }
@@ -940,6 +1009,9 @@ pub fn run_c10(args: &Args) -> Report {
         if i == 0 {
             rep.sample(format!("{mode} on sources {:?} with decoys {:?}: changed paths {:?}", p.sources, p.files.iter().map(|f| f.0.clone()).filter(|f| !p0.files.iter().any(|g| &g.0 == f)).collect::<Vec<_>>(), changed));
         }
+    }
+    if args.shard == 0 {
+        verify_read_only_scenarios(&mut rep, &mut runner, "C10");
     }
     if args.shard == 0 {
         run_corners(&mut rep, &mut runner, "C10");
